@@ -18,6 +18,7 @@ func genLifePlan(seed uint64, thorough bool) *Plan {
 	p.Knobs.Sticky = []int{0, 40, 80}[g.r.IntN(3)]
 	p.Knobs.Stall = []int{0, 20, 20, 40}[g.r.IntN(4)]
 	p.Knobs.PCT = []int{0, 0, 0, 2, 3}[g.r.IntN(5)]
+	p.Knobs.UnlockYield = g.chance(2)
 	p.Knobs.Frag = g.chance(3)
 	second := g.chance(2)
 	cycles := 1 + g.r.IntN(3)
